@@ -41,13 +41,13 @@ PLAN = {
     "C11": dict(profiles=[("static", 24, 240, None), ("full", 32, 250, None), ("edits", 16, 120, None)], features=["default", "alt"],
                 nontrivial=lambda s: s["encaps"] > 0 and s["keygens"] > 0,
                 rule="history with encapsulations and keys whose flavours were compared with the hints"),
-    "C13": dict(profiles=[("full", 40, 300, None), ("disable", 16, 120, None)], features=["default", "alt"],
+    "C13": dict(profiles=[("full", 40, 300, None), ("disable", 16, 120, None), ("crowd", 4, 30, None)], features=["default", "alt"],
                 nontrivial=lambda s: s["roundtrips"] > 0,
                 rule="history with at least one injected serialization round trip whose object replaced the original"),
     "C16": dict(profiles=[("full", 40, 300, None), ("rotation", 16, 120, None)], features=["default"],
                 nontrivial=lambda s: s["fresh_values"] > 20,
                 rule="history creating more than 20 values that must be fresh"),
-    "C17": dict(profiles=[("ids", 56, 500, None), ("full", 8, 80, None)], features=["default"],
+    "C17": dict(profiles=[("ids", 48, 440, None), ("crowd", 8, 60, None), ("full", 8, 80, None)], features=["default"],
                 nontrivial=lambda s: s["usk_checks"] > 0,
                 rule="history with key generations / refreshes whose registration and tracing relation were read through the hook"),
     "C18": dict(profiles=[("recaps", 56, 500, None), ("full", 8, 80, None)], features=["default"],
